@@ -287,7 +287,9 @@ impl<'t> LRParser<'t> {
         // We remove the last n entries from the parse tree stack including skip tokens which are
         // not part of the LALR(1) automaton.
         let children: Vec<LRParseTree<'_>> = self.parse_tree_stack.pop_n(n, |pt| match pt {
-            LRParseTree::Terminal(t) => !t.is_skip_token(),
+            // Tokens skipped because of a scanner state's %skip list are not part of the
+            // LALR(1) automaton either
+            LRParseTree::Terminal(t) => !t.is_effectively_skip_token(),
             LRParseTree::NonTerminal(_, _) => true,
         });
 
